@@ -111,7 +111,7 @@ PROPS = {
         "engine": "treesim",
         "level": "exploration",
         "budget": {"quick": 60, "thorough": 900},
-        "rule": "one run = 2-4 real replicas of one unencrypted tree and a scripted ACL history of 3-9 records (replica accounts and two extra accounts added as writer/reader, re-permissioned, removed with key rotation, re-added) "
+        "rule": "[the content id of the reference predicate is computed by the harness from the digest, not by the library; forged ids include other spellings of the same digest (other multibase, raw codec); scripted ACL records include ones that change one account twice (writer first, reader last)] one run = 2-4 real replicas of one unencrypted tree and a scripted ACL history of 3-9 records (replica accounts and two extra accounts added as writer/reader, re-permissioned, removed with key rotation, re-added) "
                 "that reaches every replica record by record at seeded points, so changes can arrive before the record they cite. Besides the C01 schedule faults, two byzantine fault kinds: "
                 "(a) one of 11 structure-aware mutations of a change inside a head update in flight (payload/signature/content byte flips with and without recomputed id, foreign id, author swapped with and without re-signing, cited ACL record re-pointed with and without re-signing, parents edited, signature stripped, timestamp edited); "
                 "(b) a byzantine author holding every account's key builds well-formed signed changes on a donor replica's heads for any account and any (also unknown) cited record and sends them to a victim. "
@@ -160,7 +160,7 @@ PROPS = {
         "engine": "aclsim",
         "level": "exploration",
         "budget": {"quick": 60, "thorough": 900},
-        "rule": "one run = an honest chain in a shareable space (5-8 accounts, owner bootstrap, 10-60 events: request+approve, open-invite join, direct add, remove with rotation, leave request, invite revoke alone or in a batch with rotation/removal, invite change, stand-alone rotation, permission changes, re-add, ownership transfer; actors on stale views) interleaved with encrypted AddContent on one object tree by current writers. "
+        "rule": "[also: faulty rotations - built with the real builder, one member listed twice and one left out before signing - must be refused or leave every member able to derive; empty content added as encrypted; the key generation in force at every record (ReadKeyForAclId) against the last generation introduced at or before it] one run = an honest chain in a shareable space (5-8 accounts, owner bootstrap, 10-60 events: request+approve, open-invite join, direct add, remove with rotation, leave request, invite revoke alone or in a batch with rotation/removal, invite change, stand-alone rotation, permission changes, re-add, ownership transfer; actors on stale views) interleaved with encrypted AddContent on one object tree by current writers. "
                 "After every accepted record every account rebuilds its own view (own keys only, full validation) and the oracles run: every account holding a permission derives every key generation (byte-equal across members) and has a current read key; an account holding none derives no generation introduced after it last held one; "
                 "for rotations in simple records the new key is encrypted to exactly the accounts keeping access and exactly the open invites staying live, and no revoked invite key opens any entry. Tree: stored/transmitted change bytes never contain the plaintext marker, the change names the current key generation and decrypts under the per-tree key derived from it, "
                 "every current member reads every change back as the original through IterateRoot, an account without the key never sees plaintext of later generations, and building an encrypted change with a nil key returns ErrMissingEncryptKey. evaluations = per-account derivation checks.",
@@ -192,7 +192,7 @@ PROPS = {
         "engine": "treesim",
         "level": "exploration",
         "budget": {"quick": 60, "thorough": 900},
-        "rule": "one run = a C01 run; at sampled points (15% of steps, and twice after convergence) an ordered pair (responder R, requester Q) of live replicas is probed: Q's real (heads, snapshot path) or an empty-heads request, batch limit from {1,64,200,400,900,2000,5000,1MiB} bytes, "
+        "rule": "[between the load of the response iterator and the batches, and between batches, deliveries to the responder and its own edits are let in (25% each point): the response must still carry everything the responder held when it handled the request] one run = a C01 run; at sampled points (15% of steps, and twice after convergence) an ordered pair (responder R, requester Q) of live replicas is probed: Q's real (heads, snapshot path) or an empty-heads request, batch limit from {1,64,200,400,900,2000,5000,1MiB} bytes, "
                 "batches produced by the real response producer / load iterator on R's live tree and storage; oracles on the batch sequence (complete w.r.t. R.stored minus Q.stored, parents-first among what Q lacks, size <= limit unless single change, announced heads sent-or-held, no duplicates, bytes = stored bytes) "
                 "and on applying them through the wire (marshal, unmarshal, HandleResponse) to a clone of Q (copied database reopened): no error, every change of every batch stored afterwards, final set = union. evaluations = probes. Non-trivial as C01.",
         "assumptions": COMMON_ASSUMPTIONS + ["requests are honest: the requester's real heads and snapshot path at probe time, or the empty request",
@@ -271,7 +271,7 @@ PROPS = {
         "level": "exploration",
         "budget": {"quick": 40, "thorough": 600},
         "race_leg": True,
-        "rule": "one run = 2-4 concurrent tasks (15% long runs: 3-6 tasks x 8-30 ops) issuing Get/Pick/Add/Remove/RemoveSame/TryRemove/GC/Close/DoLockedIfNotExists on 1-2 ids; "
+        "rule": "[in 40% of runs the loader sometimes returns its object although the load's context has ended; every Close/TryClose is attributed to the operation running on that goroutine: RemoveSame closes only the instance it was given, Remove/TryRemove only their id] one run = 2-4 concurrent tasks (15% long runs: 3-6 tasks x 8-30 ops) issuing Get/Pick/Add/Remove/RemoveSame/TryRemove/GC/Close/DoLockedIfNotExists on 1-2 ids; "
                 "the seeded scheduler orders every pass through load start/end, Close start/end, TryClose verdict (true/false) and 14 yield points inside ocache, "
                 "chooses load outcomes (ok/error/nil), close errors, caller-context cancellations and clock jumps past the TTL; then the cache is closed. "
                 "Non-trivial: >=6 scheduler grants and >=1 instance created. Distinct = distinct event-kind sequences; interleavings = distinct scheduler decision sequences.",
@@ -287,7 +287,7 @@ PROPS = {
         "engine": "diffsim",
         "level": "exploration",
         "budget": {"quick": 40, "thorough": 600},
-        "rule": "one run = two parties whose indexes are reached through independent seeded histories (Set new/existing/multi, RemoveId) from a common base, "
+        "rule": "[heads have one length, several lengths (a longer head may be the smaller string) or include the empty string, per run] one run = two parties whose indexes are reached through independent seeded histories (Set new/existing/multi, RemoveId) from a common base, "
                 "with swarm parameters (divide factor 2..64, threshold 1..512, uniform / hash-prefix-skewed / mixed id pools, pool 3..1500, up to 20000 in thorough), "
                 "1-4 rounds of mutate + diff in both directions through direct / head-sync wire / key-value wire adapters, both diff variants, transport error at request k in ~12% of exchanges. "
                 "Non-trivial: at least one exchange with a non-empty expected difference that needed >=2 range requests. Distinct = distinct event-kind sequences.",
@@ -306,8 +306,10 @@ PROPS = {
         "rule": "one run = a seeded history (5-120 ops: Set new / existing same head / existing new head / multi-element, RemoveId present / absent, restart = rebuild from contents) on a live index; "
                 "after every operation the live index is compared with an index freshly filled in one call (Hash, and Ranges answers for the whole range, the canonical subdivision 3 levels deep and one occupied path 16 levels deep, with and without Elements); "
                 "at the end a second live index reaching the same contents by a shuffled history with temporary and stale entries is compared too and DiffTypeCheck must say in-sync. "
+                "Heads have one length, several lengths (a longer head may be the smaller string) or include the empty string, per run. "
+                "Two further legs (20% of runs each) keep an index beside a real store on any-store: the real headsync.DiffManager over real head and state storage (entries left by an older version - with and without common snapshot, derived or not, root-only - then creations, head moves, deletions queued and carried out, restarts) and the real key-value inner storage (batches of Set with timestamps that are small, around 2^53, around 2^62 and nanosecond stamps; restarts); after every step the maintained index must answer like an index rebuilt from the store, and the stored space hash must be the live index's hash. "
                 "evaluations = index comparisons. Non-trivial: >=3 operation kinds and non-empty final contents.",
-        "assumptions": COMMON_ASSUMPTIONS + ["claim made at the ldiff.Diff API level; DiffManager / key-value inner-storage level is covered by the C12/C15 engines"],
+        "assumptions": COMMON_ASSUMPTIONS + ["in the storage legs the space-storage shell, the ACL (only logged) and the deletion state (a set) are stubs; head updates reach the DiffManager synchronously (the real head updater queue is exercised by the C15 engine)"],
         "technique": "deterministic simulation: seeded operation histories with restart-as-operation, differential oracle against a freshly rebuilt index after every step",
         "level_text": "Seeded exploration of operation histories with a differential oracle (live index vs freshly filled index vs second history) evaluated after every operation.",
         "level_note": "ldiff is real; reference = the same code filled in one call (the property's own definition of history independence)",
@@ -373,7 +375,7 @@ PROPS = {
         "engine": "appsim",
         "level": "fault_enumeration",
         "budget": {"quick": 20, "thorough": 300},
-        "rule": "one evaluation = one leg: a seeded container configuration (1-3 nested containers, 1-8 plain/runnable components each, "
+        "rule": "[failing components return their own error or one that wraps context.Canceled / DeadlineExceeded; in 40% of containers some components are registered late, after the container was asked for names, and those early lookups are checked against the resolution at that moment] one evaluation = one leg: a seeded container configuration (1-3 nested containers, 1-8 plain/runnable components each, "
                 "shadowed names, lookups from Init) executed with one injected failure point (none / Init of i / Run of i / Close error of i / all Close errors); "
                 "all legs of a configuration are enumerated. A run is one configuration; it is non-trivial when it has >2 legs; "
                 "distinct = distinct (shape, leg sequence) hashes.",
